@@ -83,7 +83,7 @@ namespace ip {
 				, [&](result_t const& r) { return r.completion_time > t; });
 			m_queue.insert(pos, std::move(res));
 			m_timer.expires_at(m_queue.front().completion_time);
-			m_timer.async_wait(aux::make_malloc(std::bind(&basic_resolver::on_lookup, this, _1)));
+			wait_for_next();
 			return;
 		}
 		ec.clear();
@@ -109,7 +109,19 @@ namespace ip {
 		m_queue.emplace_back(std::move(res));
 
 		m_timer.expires_at(m_queue.front().completion_time);
-		m_timer.async_wait(aux::make_malloc(std::bind(&basic_resolver::on_lookup, this, _1)));
+		wait_for_next();
+	}
+
+	template<typename Protocol>
+	void basic_resolver<Protocol>::wait_for_next()
+	{
+		std::weak_ptr<int> alive = m_alive;
+		m_timer.async_wait([this, alive](boost::system::error_code const& ec)
+		{
+			// the resolver may have been destroyed after the expiry was posted
+			if (alive.expired()) return;
+			on_lookup(ec);
+		});
 	}
 
 	template<typename Protocol>
@@ -133,7 +145,7 @@ namespace ip {
 		if (!m_queue.empty())
 		{
 			m_timer.expires_at(m_queue.front().completion_time);
-			m_timer.async_wait(aux::make_malloc(std::bind(&basic_resolver::on_lookup, this, _1)));
+			wait_for_next();
 		}
 		v.handler(v.err, std::move(v.ips));
 	}
